@@ -147,7 +147,7 @@ class RepositoryConfig:
                             codename,
                             {
                                 component: Codename.Component(
-                                    component, self.source, self.arches
+                                    component, self.source, list(self.arches)
                                 )
                                 for component in self.components
                             },
@@ -173,7 +173,7 @@ class RepositoryConfig:
                         codename,
                         {
                             component: Codename.Component(
-                                component, self.source, self.arches
+                                component, self.source, list(self.arches)
                             )
                             for component in self.components
                         },
@@ -186,7 +186,7 @@ class RepositoryConfig:
                 for component in self.components:
                     component = codename.components.setdefault(
                         component,
-                        Codename.Component(component, self.source, self.arches),
+                        Codename.Component(component, self.source, list(self.arches)),
                     )
 
                     for arch in self.arches:
